@@ -334,7 +334,7 @@ func c04IDs(p *core.Prog, r *core.Report, locks *core.Locks) {
 			ok := false
 			core.EachInstr(f, func(i ssa.Instruction) {
 				if ret, isRet := i.(*ssa.Return); isRet && len(ret.Results) == 1 {
-					if c, isC := ret.Results[0].(*ssa.Call); isC {
+					if c, isC := core.ReturnValues(ret)[0].(*ssa.Call); isC {
 						if o := core.CalleeObj(c); o != nil && o.Name() == "Inc" && core.AddrField(core.CallArgs(c)[0]) == idF {
 							ok = true
 						}
